@@ -8,6 +8,7 @@
 EXTENDS OutstationEv, Json, DevSets
 
 CONSTANTS MaxUpd, MaxSteps, Classes,
+          Alpha,      \* input alphabet: "events" | "ctl"
           MonName     \* which monitor runs in lock-step: "C03" | "C13" | "C05" | "C14" | "none"
 
 VARIABLES s, ev, m, hist
@@ -17,13 +18,20 @@ Mon03 == INSTANCE Mon_C03
 Mon13 == INSTANCE Mon_C13
 Mon05 == INSTANCE Mon_C05
 Mon14 == INSTANCE Mon_C14
+Mon04 == INSTANCE Mon_C04
+Mon12 == INSTANCE Mon_C12
+Mon07 == INSTANCE Mon_C07
 
 MInit == CASE MonName = "C03" -> Mon03!MonInit [] MonName = "C13" -> Mon13!MonInit
            [] MonName = "C05" -> Mon05!MonInit [] MonName = "C14" -> Mon14!MonInit
+           [] MonName = "C04" -> Mon04!MonInit [] MonName = "C12" -> Mon12!MonInit
+           [] MonName = "C07" -> Mon07!MonInit
            [] OTHER -> [viol |-> <<>>]
 MStep(mm, e, l) ==
     CASE MonName = "C03" -> Mon03!MonStep(mm, e, l) [] MonName = "C13" -> Mon13!MonStep(mm, e, l)
       [] MonName = "C05" -> Mon05!MonStep(mm, e, l) [] MonName = "C14" -> Mon14!MonStep(mm, e, l)
+      [] MonName = "C04" -> Mon04!MonStep(mm, e, l) [] MonName = "C12" -> Mon12!MonStep(mm, e, l)
+      [] MonName = "C07" -> Mon07!MonStep(mm, e, l)
       [] OTHER -> mm
 MViol(mm) == IF MonName \in {"C05", "C14"} THEN mm.L.viol ELSE mm.viol
 \* only the violations of the property under check count
@@ -34,7 +42,15 @@ H(n) == [n |-> n, lim |-> -1]
 ReadHeaders == {<<H("c1")>>, <<H("c2")>>, <<H("c1"), H("c2"), H("c3")>>, <<H("c0")>>,
                 <<H("c1"), H("c2"), H("c3"), H("c0")>>, <<[n |-> "c1", lim |-> 1]>>}
 
-Inputs(st) ==
+R(f, st, more) == [k |-> "req", f |-> f, seq |-> NextReqSeq(st), cl |-> {}, rep |-> FALSE] @@ more
+
+RepeatLast(st) ==
+    IF st.mlast.k = "none" THEN {}
+    ELSE IF st.mlast.k = "read"
+      THEN {[k |-> "read", seq |-> st.mlast.seq, hs |-> st.mlast.hs, rep |-> TRUE]}
+      ELSE {[k |-> "req", f |-> st.mlast.k, seq |-> st.mlast.seq, cl |-> st.mlast.cl, rep |-> TRUE]}
+
+InputsEvents(st) ==
     (IF st.pc = "Down" THEN {[k |-> "conn"]} ELSE {[k |-> "cut"]})
     \cup {[k |-> "upd", p |-> p] : p \in {q \in 1..NP : st.nupd < MaxUpd}}
     \cup (IF st.pc \in {"Down", "Dead"} THEN {} ELSE
@@ -42,17 +58,40 @@ Inputs(st) ==
             \cup {[k |-> "req", f |-> "delay", seq |-> NextReqSeq(st), cl |-> {}, rep |-> FALSE]}
             \cup {[k |-> "req", f |-> f, seq |-> NextReqSeq(st), cl |-> Classes, rep |-> FALSE] :
                       f \in {"enable", "disable"}}
-            \cup (IF st.mlast.k = "none" THEN {} ELSE
-                    IF st.mlast.k = "read"
-                      THEN {[k |-> "read", seq |-> st.mlast.seq, hs |-> st.mlast.hs, rep |-> TRUE]}
-                      ELSE {[k |-> "req", f |-> st.mlast.k, seq |-> st.mlast.seq, cl |-> st.mlast.cl,
-                             rep |-> TRUE]})
+            \cup RepeatLast(st)
             \cup UNION {{[k |-> "conf", uns |-> u, seq |-> sq] :
                               sq \in {RightConfirmSeq(st, u), S16(RightConfirmSeq(st, u) + 1)}} :
                           u \in BOOLEAN})
     \cup (LET d == NextTimer(st, st.now + 100000)
           IN IF d = NoTime THEN {} ELSE {[k |-> "adv", dt |-> (d - st.now) + 5]})
     \cup {[k |-> "adv", dt |-> 3]}
+
+\* controls, addressing, rejected requests
+InputsCtl(st) ==
+    (IF st.pc = "Down" THEN {[k |-> "conn"]} ELSE {[k |-> "cut"]})
+    \cup {[k |-> "upd", p |-> 1] : x \in {q \in {1} : st.nupd < MaxUpd}}
+    \cup (IF st.pc \in {"Down", "Dead"} THEN {} ELSE
+            {R(f, st, [ob |-> o]) : f \in {"select", "operate"}, o \in {"a", "b"}}
+            \cup {[R("operate", st, [ob |-> "a"]) EXCEPT !.seq = S16(@ + 1)]}
+            \cup (IF st.select.has THEN {[R("operate", st, [ob |-> "a"]) EXCEPT !.seq = S16(st.select.seq + 1)]}
+                  ELSE {})
+            \cup {R("dop", st, [ob |-> "a"]), R("dopnr", st, [ob |-> "a"]), R("delay", st, <<>>),
+                  R("write_rst", st, <<>>)}
+            \cup {R("delay", st, [src |-> "X"]), R("select", st, [ob |-> "a", src |-> "X"])}
+            \cup {R("dopnr", st, [ob |-> "a", dst |-> d]) : d \in {"BC_OPT", "BC_MAN"}}
+            \cup {R("write_rst", st, [dst |-> "BC_NR"]), R("delay", st, [dst |-> "BC_OPT"])}
+            \cup {R("unkfn", st, [bad |-> "unkfn"]), R("unkfn", st, [bad |-> "unkfn", src |-> "X"]),
+                  R("unkfn", st, [bad |-> "unkfn", dst |-> "BC_OPT"])}
+            \cup {[k |-> "read", seq |-> NextReqSeq(st), hs |-> <<>>, rep |-> FALSE, bad |-> "badobj"],
+                  [k |-> "read", seq |-> NextReqSeq(st), hs |-> <<H("c0")>>, rep |-> FALSE],
+                  [k |-> "read", seq |-> NextReqSeq(st), hs |-> <<H("c1")>>, rep |-> FALSE]}
+            \cup RepeatLast(st)
+            \cup {[k |-> "conf", uns |-> u, seq |-> RightConfirmSeq(st, u)] : u \in BOOLEAN})
+    \cup (LET d == NextTimer(st, st.now + 100000)
+          IN IF d = NoTime THEN {} ELSE {[k |-> "adv", dt |-> (d - st.now) + 5]})
+    \cup {[k |-> "adv", dt |-> SelectTO - 10], [k |-> "adv", dt |-> 20]}
+
+Inputs(st) == IF Alpha = "ctl" THEN InputsCtl(st) ELSE InputsEvents(st)
 
 Init == /\ s = Init0
         /\ ev = ResetEv
